@@ -299,7 +299,16 @@ def run(facts, res):
         for bi, st, fields in tables.aggregates(ld, "melda::Delta"):
             for n, op in zip(st.rv.j["fields"], st.rv.operands()):
                 src = lf.operand_sources(op)
-                rmap[n] = sorted({getkeys[cb] for cb in lf.call_blocks(src) if cb in getkeys})
+                ks_ = {getkeys[cb] for cb in lf.call_blocks(src) if cb in getkeys}
+                # a field parsed by a private helper (`Self::parse_delta_parents(&raw)?`): the keys that helper reads
+                from ..common import members_of as _mo
+                for cb in lf.call_blocks(src):
+                    hc = ld.blocks[cb].term.callee
+                    hb = facts.body(hc.target()) if hc is not None else None
+                    if hb is not None and hb.in_repo() and not hb.public and hb.kind != "closure" and hb.impl_trait is None and hb.impl_adt == ld.impl_adt:
+                        for m_ in _mo(facts, hb):
+                            ks_ |= set(tables.json_keys_read(m_))
+                rmap[n] = sorted(ks_)
         res.instance("I5", "writer key->field %s / loader field<-key %s" % (wmap, {k: v for k, v in rmap.items() if v}), w.loc())
         for k, fs in wmap.items():
             if len(fs) != 1 or rmap.get(fs[0]) != [k]:
